@@ -50,6 +50,13 @@ def real_pool_cases(tier, seed):
             cases.append({'n': 0, 'raising': [], 'workers': 2, 'branch': branch, 'delays': {}})
         for n in (2, 4):
             cases.append({'n': n, 'raising': [2], 'workers': 2, 'branch': 'seq', 'delays': {}})
+        # payloads of TatSu's own payload class; the function raises a genuine TypeError for ONE of them (taskproc() retries that payload
+        # with its path): the payloads handled afterwards - by the same worker, in the same run, in a later run of this interpreter - must
+        # still get the function's outcome
+        for branch, wk in (('seq', 1), ('process', 1), ('process', 2), ('thread', 1), ('thread', 2)):
+            cases.append({'n': 5, 'raising': [1], 'workers': wk, 'branch': branch, 'delays': {}, 'exc_kind': 'typeerror', 'payload_kind': 'visual'})
+            cases.append({'n': 4, 'raising': [], 'workers': wk, 'branch': branch, 'delays': {}, 'exc_kind': 'typeerror', 'payload_kind': 'visual',
+                          'prelude': 'typeerror'})
         # the function raises an ordinary user exception whose constructor takes two arguments (it pickles, but does not unpickle)
         for branch in ('process', 'thread', 'seq'):
             cases.append({'n': 5, 'raising': [3], 'workers': 2, 'branch': branch, 'delays': {}, 'exc_kind': 'twoarg'})
